@@ -250,6 +250,11 @@ def post(all_results, run_impl, rng, tier, stats):
             ms = [l for l in it if l.startswith('M@')]
             rel = [i for i, l in enumerate(ms) if ' reload ' in l]
             first_l = next((l for l in it if l.startswith('L@')), '')
+            if not any(' reload ' in l for l in it if l.startswith('M@')) and ' req=0' in first_l and ' idle=0' in first_l:
+                # the old configuration never came to rest and no longer processes input (the request key was never seen):
+                # that is a defect of the old configuration's run (C01: see the known finding rpt-any-self-trigger), not of the reload
+                stats['old_config_never_idle'] = stats.get('old_config_never_idle', 0) + 1
+                continue
             if ' req=1' in first_l:
                 # the request is still pending at the marker: allowed only while kanata holds a key (the fallback needs idleness)
                 if 'down=[]' in first_l:
